@@ -24,6 +24,11 @@ var c10Prelude = []string{
 	"fpanic = func() {fadd(1, fdeep(1))}",
 	"fbig = func() {len([1] * 4000000000000)}",
 	"fcount = func(n) {if n <= 0 {return 0}; 1 + fcount(n - 1)}",
+	"KC = 1", "fconst = func(KC) {KC}",
+	"mgood = macro(x) {quote(unquote(x) + 1)}",
+	"mboom = macro(x) {func boom(n) {boom(n + 1)}; boom(0); quote(unquote(x))}",
+	`merr = macro(x) {error("in macro body")}`,
+	"mloop = macro(x) {for true {}}",
 }
 
 // c10DeepN: the largest n for which fcount(n) works in a fresh session with the harness' depth limit, minus a margin of
@@ -59,6 +64,8 @@ func c10Good(kind string, i int) string {
 		return fmt.Sprintf(`for k%d = 2 {}; println("v%d", catch(k%d).err)`, i, i, i)
 	case "deep":
 		return fmt.Sprintf(`println("d%d", fcount(%d))`, i, c10DeepN)
+	case "macro":
+		return fmt.Sprintf(`println("m%d", mgood(%d), mgood(g))`, i, i)
 	default:
 		return "g = g + 1; println(g)"
 	}
@@ -84,6 +91,16 @@ func c10Fail(kind string) string {
 		return "[1, 2] * 4000000000000"
 	case "depth-overflow-expression":
 		return strings.Repeat("-(", 400) + "1" + strings.Repeat(")", 400)
+	case "arity-error-top-call":
+		return "fadd(1)"
+	case "param-bind-error-top-call":
+		return "fconst(2)"
+	case "depth-overflow-in-macro-body":
+		return "mboom(1)"
+	case "error-in-macro-body":
+		return "merr(1)"
+	case "deadline-in-macro-body":
+		return "mloop(1)"
 	default: // deadline
 		return "for true {}"
 	}
@@ -167,17 +184,17 @@ func checkC10(c *Ctx) {
 		return
 	}
 	c.Cov("deep_recursion_n", c10DeepN)
-	cfg := func(maxOps int, bursts string, wr, lr, emit bool) string {
+	cfg := func(maxOps int, bursts string, wr, lr, mf, emit bool) string {
 		b := func(x bool) string {
 			if x {
 				return "TRUE"
 			}
 			return "FALSE"
 		}
-		return fmt.Sprintf("CONSTANTS\n NumRegisters = 8\n MaxOps = %d\n Bursts = %s\n WriterRestored = %s\n LoopReleases = %s\n EmitOn = %s\nINIT Init\nNEXT Next\nVIEW view\nINVARIANT FailureIsInvisible\n", maxOps, bursts, b(wr), b(lr), b(emit))
+		return fmt.Sprintf("CONSTANTS\n NumRegisters = 8\n MaxOps = %d\n Bursts = %s\n WriterRestored = %s\n LoopReleases = %s\n MacroStateFresh = %s\n EmitOn = %s\nINIT Init\nNEXT Next\nVIEW view\nINVARIANT FailureIsInvisible\n", maxOps, bursts, b(wr), b(lr), b(mf), b(emit))
 	}
-	for _, dev := range [][2]bool{{false, true}, {true, false}} {
-		r, err := c.TLC(TLCOpt{Spec: "Session", Cfg: cfg(3, "{1, 9}", dev[0], dev[1], false), Workers: 2, AllowError: true})
+	for _, dev := range [][3]bool{{false, true, true}, {true, false, true}, {true, true, false}} {
+		r, err := c.TLC(TLCOpt{Spec: "Session", Cfg: cfg(3, "{1, 9}", dev[0], dev[1], dev[2], false), Workers: 2, AllowError: true})
 		if err != nil {
 			c.Infra(err)
 			return
@@ -187,8 +204,8 @@ func checkC10(c *Ctx) {
 			return
 		}
 	}
-	c.Cov("design_counterexamples", "WriterRestored=FALSE and LoopReleases=FALSE each violate FailureIsInvisible")
-	r, err := c.TLC(TLCOpt{Spec: "Session", Cfg: cfg(c.Pick(3, 4), "{1, 9}", true, true, true), Workers: 1})
+	c.Cov("design_counterexamples", "WriterRestored=FALSE, LoopReleases=FALSE and MacroStateFresh=FALSE each violate FailureIsInvisible")
+	r, err := c.TLC(TLCOpt{Spec: "Session", Cfg: cfg(c.Pick(3, 4), "{1, 9}", true, true, true, true), Workers: 1})
 	if err != nil {
 		c.Infra(err)
 		return
@@ -217,7 +234,7 @@ func checkC10(c *Ctx) {
 		ops := parseSessOps(g.H)
 		dl := 0
 		for _, op := range ops {
-			if op.Kind == "fail" && op.K == "deadline" {
+			if op.Kind == "fail" && (op.K == "deadline" || op.K == "deadline-in-macro-body") {
 				dl += op.N
 			}
 		}
